@@ -13,6 +13,8 @@ CONSTANTS
   Fault <- F030
   DeferUnlock = TRUE
   StickyError = TRUE
+  Ctx <- C250
+  CtxAwareLock = FALSE
 INVARIANTS TypeOK BufExclusive MsgOwned ItemsBound NoPanic EveryRecordWritten Returns CleanAtEnd OneWriter WriterHoldsLock LinesCorrect NoTornLine OneLinePerRecord
 PROPERTIES Termination
 CHECK_DEADLOCK TRUE
